@@ -811,6 +811,77 @@
         assert!(failures.is_empty());
     }
 
+    /// C16, the dictionary veto against the WHOLE remaining text: with a lexicon that holds a multi-character word containing a terminator
+    /// (な。な), one ending with it (娘。) and the terminator itself as a one-character entry, every text of up to 6 pieces over
+    /// {ば な 。 で 娘} is split with window limits 1..=7 and the default: the sentences partition the text, and no sentence that ends with a
+    /// terminator ends strictly inside an occurrence of な。な (also when the window ends inside the word); a terminator that is in no
+    /// multi-character dictionary word and is followed by more text does end a sentence (default window)
+    #[test]
+    fn verif_oracle_sentence_breaks_respect_dictionary_words() {
+        if !want("C16") { return; }
+        use crate::sentence_splitter::{SentenceSplitter, SplitSentences};
+        let pos = "名詞,普通名詞,一般,*,*,*";
+        let mut lex = String::new();
+        for k in ["ば", "な", "で", "娘", "。", "な。な", "娘。"] { lex.push_str(&format!("{},8,8,3000,{},{},{},{},*,A,*,*,*,*\n", k, k, pos, k, k)); }
+        lex.push_str("五,9,9,2478,五,名詞,数詞,*,*,*,*,ゴ,五,*,A,*,*,*,*\n");   // the numeral part of speech the configured plugins look up
+        let mut cfgb = ConfigTestSupport::new();
+        let mut dic = DictBuilder::new_system();
+        dic.read_conn(super::super::MATRIX_10_10).unwrap();
+        dic.read_lexicon(lex.as_bytes()).unwrap();
+        dic.resolve().unwrap();
+        dic.compile(&mut cfgb.make_system()).unwrap();
+        let jd = JapaneseDictionary::from_cfg(&cfgb.config()).unwrap();
+        let pieces = ["ば", "な", "。", "で", "娘"];
+        let mut texts: Vec<String> = Vec::new();
+        let mut frontier = vec![String::new()];
+        for _ in 0..6 {
+            let mut nf = Vec::new();
+            for t in &frontier { for c in pieces.iter() { let mut s = t.clone(); s.push_str(c); nf.push(s); } }
+            texts.extend(nf.iter().cloned());
+            frontier = nf;
+        }
+        let mut failures: Vec<String> = Vec::new();
+        let mut cases = 0usize;
+        let word = "な。な";
+        for limit in [0usize, 1, 2, 3, 4, 5, 6, 7] {
+            let sp = if limit == 0 { SentenceSplitter::new() } else { SentenceSplitter::with_limit(limit) };
+            let sp = sp.with_checker(jd.lexicon());
+            for t in texts.iter().filter(|t| t.contains('。')) {
+                cases += 1;
+                let parts: Vec<(std::ops::Range<usize>, &str)> = match std::panic::catch_unwind(std::panic::AssertUnwindSafe(|| sp.split(t).take(t.len() + 2).collect::<Vec<_>>())) {
+                    Ok(p) => p, Err(_) => { if failures.len() < 20 { failures.push(format!("C16: splitting {:?} with window limit {} panics", t, limit)); } continue; } };
+                let ctx = format!("text {:?}, window limit {}: sentences {:?}", t, if limit == 0 { 4096 } else { limit }, parts.iter().map(|p| p.1).collect::<Vec<_>>());
+                let mut at = 0; let mut ok = true;
+                for (r, s) in &parts { if r.start != at || r.end <= r.start || r.end > t.len() || *s != &t[r.clone()] { ok = false; break; } at = r.end; }
+                if !ok || at != t.len() { if failures.len() < 20 { failures.push(format!("C16: sentences do not partition the text: {}", ctx)); } continue; }
+                for (r, s) in parts.iter().take(parts.len().saturating_sub(1)) {
+                    if !s.ends_with('。') { continue; }   // a cut forced by the window, not a sentence boundary
+                    let b = r.end;
+                    let mut from = 0;
+                    while let Some(p) = t[from..].find(word) {
+                        let p = from + p;
+                        if p < b && b < p + word.len() && failures.len() < 20 { failures.push(format!("C16: a sentence ends at byte {} inside the dictionary word {:?} at {}..{}: {}", b, word, p, p + word.len(), ctx)); }
+                        from = p + "な".len();
+                    }
+                }
+                if limit == 0 {
+                    // converse: a terminator in no multi-character dictionary word, followed by a non-terminator, ends a sentence
+                    let ends: Vec<usize> = parts.iter().map(|p| p.0.end).collect();
+                    let cs: Vec<(usize, char)> = t.char_indices().collect();
+                    for k in 0..cs.len() {
+                        if cs[k].1 != '。' || k + 1 >= cs.len() || cs[k + 1].1 == '。' { continue; }
+                        let in_word = (k >= 1 && cs[k - 1].1 == '娘') || (k >= 1 && cs[k - 1].1 == 'な' && cs[k + 1].1 == 'な');
+                        let b = cs[k + 1].0;
+                        if !in_word && !ends.contains(&b) && failures.len() < 20 { failures.push(format!("C16: the terminator at byte {} is in no multi-character dictionary word but does not end a sentence: {}", cs[k].0, ctx)); }
+                    }
+                }
+            }
+        }
+        println!("verif_oracle_sentence_breaks_respect_dictionary_words: {} cases, {} failures", cases, failures.len());
+        for f in failures.iter().take(5) { println!("FAILING INPUT: {}", f); }
+        assert!(failures.is_empty());
+    }
+
     /// C05, the grammar section read back: part-of-speech strings of 1 / 126 / 127 / 128 UTF-16 units (the length prefix switches to two
     /// bytes at 127, so the matrix starts at an odd or an even address) in front of a 10 x 11 matrix of pairwise distinct costs: every cell
     /// read through the loaded dictionary equals the matrix text, every entry reports its declared strings and is found by lookup
